@@ -165,6 +165,21 @@ def monitorOneBlock (ws impl : List String) : String :=
      | ["found", i, k] => if k == n && stored.contains (i, k) then "" else "fetch-by-number-returns-another-block"
      | ["notfound"] => if stored.any (·.2 == n) then "fetch-by-number-misses-a-stored-block" else ""
      | _ => "fetch-by-number-fails")
+  | ["fetch", n, i, names] =>
+    -- fetching by number and id from a one-block store returns a stored block with that id, or not-found — and
+    -- not-found only when no file of that height carries the id
+    (match n.toNat?, unhex i, (if names == "-" then some [] else (names.splitOn ",").mapM unhex) with
+     | some n, some i, some names =>
+       let stored := names.filterMap parseFilename
+       (match impl with
+        | ["found", x] =>
+          if stored.any (fun p => hex p.canonical == x && hasSuffix i p.parts.id) then ""
+          else "fetch-from-one-block-store-returns-another-block"
+        | ["notfound"] =>
+          if stored.any (fun p => p.parts.num == n && hasSuffix i p.parts.id) then "fetch-from-one-block-store-misses-a-stored-block"
+          else ""
+        | _ => "fetch-from-one-block-store-fails")
+     | _, _, _ => "")
   | ["rt", n, i, p, l] =>
     match parseParts n i p l with
     | some b =>
